@@ -169,8 +169,15 @@ class Timeline:
     def add(self, kind, target, pid, extra):
         self.ev.append((len(self.ev), kind, target, pid, extra))
         if kind == "S":
-            for p2, t2 in self.running.items():
+            for p2, t2 in list(self.running.items()):
                 if t2 == target and p2 != pid:
+                    # sound only if the older execution is still alive *now* (then it was alive when the new one
+                    # started); a script that was killed leaves no X record
+                    st_, _, _, _ = proc_state(p2)
+                    if st_ is None or st_ == "Z":
+                        self.running.pop(p2, None)
+                        self.inwork.pop(p2, None)
+                        continue
                     self.overlaps.append((target, p2, pid))
             self.running[pid] = target
             self.starts[target] += 1
@@ -422,6 +429,11 @@ class SchedRunner:
         unstarted = list(self.invs)
         # the first invocation always starts first
         self.start_inv(unstarted.pop(0))
+        if self.sopts.get("start_first"):
+            # let every invocation run into the gates (and each other's locks) before anything is released
+            while unstarted:
+                self.quiescent()
+                self.start_inv(unstarted.pop(0))
         while True:
             if time.time() - t0 > self.DEADLINE:
                 self.on_deadline()
